@@ -3,7 +3,8 @@ import ScVerif.C18.HeapRefine
 # C18 — property theorems, part 14: the heap models ARE the model the code is tied to
 
 "…and never modify their arguments" is proved on heap versions of the operations (PropsHeap, PropsHeapTrace); the
-step-function laws are proved on the pure versions (`cutSeg`, `shift`, `modeShift`, …), which are what the driver
+step-function laws are proved on the pure versions (`cutSeg`, `shift`, `sum`, `modeShift`, `modeCut`, `modeSum`), which
+are what the driver
 runs against the Go code.  Until round 8 the two were connected by examples.  Here: for EVERY heap, reading the
 result of the heap version back through the final heap is the pure version applied to the argument read through
 the initial heap.  One hypothesis: the slice's elements are addresses of existing cells (`ValidAddrs`: a Go slice
@@ -114,6 +115,18 @@ theorem C18_shift_function_and_frame (h : Heap) (d : Int) (sl : Slice) (ha : sl.
   ⟨heapShift_refines h d sl v, readSegs_extends (heapShift_extends h d sl) sl ha v,
    fun hi hmem => readSegs_extends (shiftTrace_extends h d sl hi hmem) sl ha v⟩
 
+/-- Why the clause needs its own check.  The variant of `segmentpb.Shift` without `proto.Clone` (which
+`C18_shift_without_clone_writes_argument` shows storing into the caller's first segment) RETURNS the right list:
+for every heap whose list starts with an existing idle segment that does not occur again in the list, and every
+`d > 0`, its result reads back as `shift d` of the argument.  No comparison of results with the step function
+finds it; only the comparison of the arguments (or the read-only pages) does. -/
+theorem C18_shift_without_clone_same_result (h : Heap) (d l : Int) (sl : Slice) (first : Nat) (rest : List Nat)
+    (hd : d > 0) (hs : readSlice h sl = first :: rest) (hf : first < h.cells.length)
+    (hcell : readCell h first = ⟨0, some l⟩) (hnot : first ∉ rest) :
+    ∃ hl, (shiftTrace false h d sl).1.getLast? = some hl ∧
+      readSegs hl (shiftTrace false h d sl).2 = shift d (readSegs h sl) :=
+  shiftTrace_noclone_result h d l sl first rest hd hs hf hcell hnot
+
 /-! Non-vacuity: a heap with a slice at an offset and spare capacity satisfies the hypothesis; an address beyond
 the cells does not. -/
 example : ValidAddrs ⟨[⟨1, some 2⟩, ⟨2, some 4⟩, ⟨3, none⟩], [[2, 0, 1, 2]]⟩
@@ -141,5 +154,10 @@ example :
      let ms : List HeapMode := [⟨some 0, ⟨0, 0, 2⟩⟩, ⟨some 3, ⟨1, 0, 1⟩⟩]
      (modeSum (ms.map (HeapMode.toMode h))).map (fun r => (r.start, r.segs))) =
     some (some 0, [⟨1, some 2⟩, ⟨2, some 1⟩, ⟨5, some 3⟩, ⟨3, none⟩]) := by decide
+
+example :
+    (let r := shiftTrace false ⟨[⟨0, some 2⟩, ⟨2, some 2⟩], [[0, 1]]⟩ 3 ⟨0, 0, 2⟩
+     (r.1.getLast?.map (fun e => readSegs e r.2), r.1.getLast?.map (fun e => readSegs e ⟨0, 0, 2⟩))) =
+    (some (shift 3 [⟨0, some 2⟩, ⟨2, some 2⟩]), some [⟨0, some 5⟩, ⟨2, some 2⟩]) := by decide
 
 end ScVerif.C18
